@@ -217,10 +217,32 @@ def check_classification(rec, case, r, msg_type, bad):
             bad(f"non-matching-getter/{g}/not-None", repr(x)[:120], None)
 
 
+def _keeper(rec):
+    """independence oracle (mc/alias.py): messages, decoded TLVs, parameter objects and pack() results handed
+    out for earlier cases are re-observed after the following cases"""
+    k = getattr(rec, "_keeper", None)
+    if k is None:
+        from mc.alias import Keeper
+        k = rec._keeper = Keeper(rec, "C18", depth=8, live=True)
+    return k
+
+
+def _obs_msg(o):
+    return (int(o.tlv_type), bytes(o.value), int(o.packet_len))
+
+
 def check_message(rec: Rec, kind: str, p: dict, nontrivial=True):
     L = lib()
     case = {"kind": "msg", "msg": kind, "p": p}
     rec.case(nontrivial, ops=20)
+    keep = _keeper(rec)
+    try:
+        return _check_message(rec, L, case, kind, p, keep)
+    finally:
+        keep.recheck(case)
+
+
+def _check_message(rec, L, case, kind, p, keep):
     ref = ref_octets(kind, p)
     msg_type = MSG_TYPE[kind]
 
@@ -230,15 +252,20 @@ def check_message(rec: Rec, kind: str, p: dict, nontrivial=True):
 
     try:
         msg = build(kind, p)
-        got = bytes(msg.pack())
+        packed = msg.pack()
+        got = bytes(packed)
     except Exception as e:
         return bad("encode/pack/exception", _exc(e), ref)
+    keep.recheck(case)  # before holding this case's own results: only EARLIER results are judged here
+    keep.hold(f"build({kind})", msg, _obs_msg, case)
+    keep.hold(f"{kind}.pack", packed, bytes, case)
     if got != ref:
         return bad("encode/pack/octets", got, ref)
     try:
         m = L.tlv.MessageToUserTlv.unpack(ref)
     except Exception as e:
         return bad("decode/MessageToUserTlv.unpack/exception", _exc(e), None)
+    keep.hold("MessageToUserTlv.unpack", m, _obs_msg, case)
     if bytes(m.value) != ref[2:]:
         return bad("decode/MessageToUserTlv.unpack/value", bytes(m.value), ref[2:])
     try:
@@ -251,11 +278,14 @@ def check_message(rec: Rec, kind: str, p: dict, nontrivial=True):
         return bad("recognise/to_reserved_msg_tlv/None", None, "ReservedCfdpMessage")
     if bytes(r.pack()) != ref:
         bad("recognise/to_reserved_msg_tlv/repack", bytes(r.pack()), ref)
+    keep.hold("MessageToUserTlv.to_reserved_msg_tlv", r, _obs_msg, case)
     getter = GETTERS[kind]
     if getter:
         exp = expected_params(kind, p)
         try:
-            obs = observe_params(kind, getattr(r, getter)())
+            got_params = getattr(r, getter)()
+            obs = observe_params(kind, got_params)
+            keep.hold(f"ReservedCfdpMessage.{getter}", got_params, lambda g, kind=kind: observe_params(kind, g), case)
         except Exception as e:
             obs = None
             bad(f"params/{getter}/exception", _exc(e), exp)
